@@ -187,6 +187,7 @@ def run_case_symbolic(hname, case, opts):
     budget = case.get('budget_s', opts.get('budget_s', 120))
     eng = Engine(timeout_ms=opts.get('query_timeout_ms', 20000), max_paths=case.get('max_paths', 200000))
     eng.deadline = t0 + budget
+    eng.path_cap = case.get('path_cap')
     Engine.cur = eng
     if opts.get('prefix') is not None:
         eng.decisions = [[bool(d[0]), False, d[2]] for d in opts['prefix']]
@@ -208,7 +209,7 @@ def run_case_symbolic(hname, case, opts):
         res['cex'].append(dict(label=label, info=jsonable(info), inputs=inputs, script=script, nice=nice, case=case))
 
     def body():
-        arr.CFG.update(lazy_where=True, concretize_index=False, argsort_declarative=True)
+        arr.CFG.update(lazy_where=False, concretize_index=False, argsort_declarative=True)
         arr.CFG.update(case.get('cfg', {}))
         g = _INSTALLED[0][2]; g.rng = None
         mode = SymMode(case, eng); state['mode'] = mode
